@@ -76,3 +76,14 @@ chk("C06",
     "and gradients read None once the base is re-used.",
     "Trusted: NumPy's view functions re-applied by the harness to the gradient array. Views of views across epochs are outside.",
     "exhaustive program/schedule enumeration + symbolic execution + SMT term equality and aliasing probes", "DESIGN §3 C06")
+chk("C07",
+    "15 step programs x 6 between-iteration actions x 2 (thorough 3) forward/backward iterations, every feasible path with symbolic "
+    "data. Solver part: the gradient terms of every later iteration are structurally identical (same unsimplified term DAG, i.e. the "
+    "same operation sequence on the same operands, hence bit-identical floats) to those of iteration 0, and z3 refutes any value "
+    "difference (accumulation). Observed on every path with the cyclic GC disabled: L and every tensor upstream of it has no creator "
+    "and no consumers after backward(); every intermediate tensor, Operation and placeholder is dead by reference counting alone once "
+    "the caller drops its names; leaf gradients persist until non-view re-use / in-place update / next backward and then read None, "
+    "also through views.",
+    "Trusted: CPython reference counting is observed, not encoded; weak references are taken by harness-side wrappers of "
+    "Tensor.__init__/Operation.__init__. Strength: exhaustive over the listed programs, not over all programs.",
+    "symbolic execution + structural term identity and SMT value equality across iterations; concrete heap observation per path", "DESIGN §3 C07")
